@@ -207,6 +207,7 @@ type hWorld struct {
 	tokForeign []bool // carries a block built for another token's symbol table: content unspecified
 	tokBase    [][]string
 	orc        *oracle
+	unm        *biscuit.Unmarshaler // shared by all the reload operations of the history
 }
 
 func newHWorld(rng *RNG, orc *oracle) *hWorld {
@@ -346,7 +347,12 @@ func (w *hWorld) exec(o hOp) (out string, panicked string) {
 		if err != nil {
 			return failOf(err), ""
 		}
-		tok, err := biscuit.Unmarshal(bs)
+		// ONE Unmarshaler value serves every reload of a history (an application keeps one
+		// around): decoding a token must not change the Unmarshaler nor earlier tokens
+		if w.unm == nil {
+			w.unm = &biscuit.Unmarshaler{Symbols: &datalog.SymbolTable{}}
+		}
+		tok, err := w.unm.Unmarshal(bs)
 		if err != nil {
 			return failOf(err), ""
 		}
